@@ -65,7 +65,9 @@ def cases(tier, seed, shard, nshards):
                 spec["srcs"] = [[rng.choice([None, None, 0, False, "", 1, ["T"]]) for _ in ks]]
         else:
             spec = gen.iter_spec(rng, name)
-        yield {"spec": spec, "flav": rng.choice(FLAVS)}
+        # the callables come in every flavour too (plain, async def, partial, call object, an object whose call gives
+        # a non-coroutine awaitable): the items must not depend on it
+        yield {"spec": spec, "flav": rng.choice(FLAVS), "fnfl": rng.choice(["def", "def", "async_def", "callobj", "awaitobj", "partial"])}
 
 
 def expected(spec, sync):
@@ -101,7 +103,9 @@ def run_case(case, stats: Counter):
     ops = spec.get("ops")
     keep = bool(spec.get("raw")) and tool != "tee"
     sync = run_sync_side(spec, steps=steps, log=False, ops=ops, keep_objs=keep)
-    asy = run_async_side(spec, flavours=[flav] * len(spec["srcs"]), steps=steps, log=False, ops=ops, keep_objs=keep,
+    nfn = len(spec.get("fns", []))
+    asy = run_async_side(spec, flavours=[flav] * len(spec["srcs"]), fn_flavours=[case.get("fnfl", "def")] * nfn,
+                         steps=steps, log=False, ops=ops, keep_objs=keep,
                          outer_flavour=flav if flav in ("list", "async_gen", "async_class", "sync_iter") else "list")
     exp_out, exp_term = expected(spec, sync)
     stats[f"runs_{tool}"] += 1
